@@ -247,3 +247,42 @@ def rule_G4_join(ctx, F):
                 for sp in found:
                     ctx.ob(False, "join-static-ref:%s" % p, s.get("s"), "%s references static %s" % (p, sp))
     ctx.ob(True, "join-effect-scan", "", "scanned %d reachable bodies" % len(reach))
+
+
+def rule_W1(ctx, F):
+    """compress_subtree_wide (Rust): the two-children shortcut (`return 2`, children copied out unmerged) is taken exactly
+    when the LEFT half returned one chaining value; otherwise one parent layer is compressed over left_n + right_n children"""
+    fn = F.need_fn("compress_subtree_wide")
+    alts = ret_alternatives(fn)
+    two = [(b, gs, e) for b, gs, e in alts if e == ("const", None, 2)]
+    ok = False
+    why = "%d `return 2` path(s)" % len(two)
+    JOIN0 = None
+    for b, gs, e in two:
+        for c, tr in gs:
+            if tr is True and c[0] == "bin" and c[1] == "Eq" and ("const", None, 1) in (c[2], c[3]):
+                other = c[3] if c[2] == ("const", None, 1) else c[2]
+                if other[0] == "path" and other[1][0] == "call" and other[1][1].endswith("Join::join") and other[2] == ("0",):
+                    ok = True
+                    JOIN0 = other
+                why = "`return 2` under %s == 1" % show(other)[:100]
+    ctx.ob(len(two) == 1 and ok, "subtree-two-children-iff-left-n-1", fn.loc, why + " ; required the first component of join(..) (left_n) == 1")
+    par = [(b, gs, e) for b, gs, e in alts if e[0] == "call" and e[1] == "compress_parents_parallel"]
+    okp = False
+    if len(par) == 1 and JOIN0 is not None:
+        JOIN1 = ("path", JOIN0[1], ("1",))
+        want = P.bin("Mul", P.bin("Add", JOIN0, JOIN1), ("const", "OUT_LEN", 32))
+        okp = find_sub(par[0][2][2][0], want) is not None
+    ctx.ob(okp, "subtree-parents-over-all-children", fn.loc, "compress_parents_parallel(&cv_array[..(left_n + right_n) * OUT_LEN], ..): %s" % okp)
+    # the leaf case hands at most simd_degree chunks to compress_chunks_parallel: a leaf returns one CV per chunk, and the
+    # parent reserves max(simd_degree, 2) CV slots per child -- a wider leaf would overflow its half of cv_array
+    leaf = [(b, gs, e) for b, gs, e in alts if e[0] == "call" and e[1] == "compress_chunks_parallel"]
+    okl = False
+    bound = None
+    if len(leaf) == 1:
+        SD = ("call", "platform::Platform::simd_degree", (W(),))
+        for c, tr in leaf[0][1]:
+            if tr is True and c[0] == "bin" and c[1] == "Le" and c[2][0] == "call" and c[2][1].endswith("len"):
+                bound = c[3]
+                okl = unify(P.bin("Mul", SD, ("const", "CHUNK_LEN", 1024)), c[3]) is not None or unify(P.bin("Mul", ("const", "CHUNK_LEN", 1024), SD), c[3]) is not None
+    ctx.ob(okl, "subtree-leaf-width-is-simd-degree", fn.loc, "leaf case taken when input.len() <= %s ; required platform.simd_degree() * CHUNK_LEN" % (show(bound)[:100] if bound else "?"))
